@@ -1,0 +1,128 @@
+//go:build verif
+
+// Contracts for the deductive verification of this package (build tag "verif"). This file contains
+// comments only; it adds no code. The contract language and the generator that checks these contracts
+// against the code of this package live outside the repository.
+
+package bitcoin_reader
+
+// ---------------------------------------------------------------------------------------------------
+// Message framing (C14) and crash freedom of the message path (C15)
+//
+// consumed(r) is the ghost count of bytes read from reader r. A handler keeps the stream in sync iff on a nil
+// return it has consumed exactly header.Length bytes.
+
+//@ func DiscardInput
+//@   ensures [C14.discard-exact] result == nil ==> consumed(r) == old(consumed(r)) + n
+//@   ensures [C14.discard-monotone] consumed(r) >= old(consumed(r))
+//@   safety [C15]
+//@   modifies reads(r)
+//@   loop 1
+//@     modifies reads(r), elems(b)
+//@     invariant 0 <= i && i <= numReads && consumed(r) == atentry(consumed(r)) + i * 1024
+
+//@ func DiscardInputWithCounter
+//@   requires [C14.counter-not-ahead,C15.counter-not-ahead] count(counter) <= n
+//@   ensures [C14.discard-rest] result == nil ==> consumed(r) == old(consumed(r)) + (n - old(count(counter)))
+//@   ensures [C14.discard-monotone] consumed(r) >= old(consumed(r))
+//@   safety [C15]
+//@   modifies reads(r)
+
+//@ func readHeader
+//@   ensures [C14.header-24] result1 == nil ==> consumed(r) == old(consumed(r)) + 24
+//@   ensures [C14.header-length-32] result1 == nil ==> result0 != nil && 0 <= result0.Length && result0.Length < 4294967296
+//@   ensures [C15] result0 != nil
+//@   safety [C15]
+//@   modifies reads(r)
+
+//@ func readInvVect
+//@   ensures [C14.invvect-36] result1 == nil ==> consumed(r) == old(consumed(r)) + 36
+//@   safety [C15]
+//@   modifies reads(r)
+
+//@ func deserializeBlockHeader
+//@   ensures [C14.header-entry] result2 == nil ==> result0 != nil && consumed(r) == old(consumed(r)) + 80 + varintLen(result1)
+//@   safety [C15]
+//@   modifies reads(r)
+
+//@ pure func varintLen(v uint64) int = ite(v < 253, 1, ite(v <= 65535, 3, ite(v <= 4294967295, 5, 9)))
+
+// ---------------------------------------------------------------------------------------------------
+// Peer address book (C20)
+
+// storage.Storage is the environment: its calls do not touch repository memory.
+//@ iface github.com/tokenized/pkg/storage.Storage.Read
+//@   params store, ctx, key
+//@   ensures result1 == nil ==> allocated(result0)
+//@   modifies nothing
+//@ iface github.com/tokenized/pkg/storage.Storage.Write
+//@   params store, ctx, key, body, options
+//@   modifies nothing
+//@ iface github.com/tokenized/pkg/storage.Storage.Remove
+//@   params store, ctx, key
+//@   modifies nothing
+
+// peersInv: list and lookup describe the same set: every listed peer is the lookup entry of its address, and the
+// listed pointers are pairwise distinct (so no address is held twice).
+//@ pure func peersInv(r *StoragePeerRepository) bool = r != nil && r.lookup != nil && forall(i, 0, len(r.list), r.list[i] != nil && has(r.lookup, r.list[i].Address) && r.lookup[r.list[i].Address] == r.list[i]) && forall(i, 0, len(r.list), forall(j, 0, len(r.list), i != j ==> r.list[i] != r.list[j]))
+//@ pure func inRange(p *Peer, lo int32, hi int32) bool = p.Score >= lo && (hi == -1 || p.Score <= hi)
+
+//@ func (*StoragePeerRepository).Count
+//@   requires repo != nil
+//@   ensures [C20.count] result == len(repo.list)
+//@   modifies nothing
+
+//@ func (*StoragePeerRepository).Add
+//@   requires peersInv(repo)
+//@   ensures [C20.add-once] result0 == !old(has(repo.lookup, address)) && result1 == nil
+//@   ensures [C20.add-refused] !result0 ==> repo.list == old(repo.list) && mapsame(repo.lookup)
+//@   ensures [C20.add-appends] result0 ==> len(repo.list) == old(len(repo.list)) + 1 && forall(i, 0, old(len(repo.list)), repo.list[i] == old(repo.list[i])) && repo.list[len(repo.list)-1] != nil && fresh(repo.list[len(repo.list)-1])
+//@   ensures [C20.add-zero-score] result0 ==> repo.list[len(repo.list)-1].Address == address && repo.list[len(repo.list)-1].Score == 0 && repo.list[len(repo.list)-1].LastTime == 0
+//@   ensures [C20.add-lookup] result0 ==> mapupd(repo.lookup, address, repo.list[len(repo.list)-1])
+//@   ensures [C20.invariant] peersInv(repo)
+//@   modifies repo.list, elems(repo.list), mapof(repo.lookup)
+
+//@ func (*StoragePeerRepository).Get
+//@   requires peersInv(repo)
+//@   ensures [C20.get-filter] result1 == nil && forall(k, 0, len(result0), result0[k] != nil && inRange(result0[k], minScore, maxScore) && exists(i, 0, len(repo.list), result0[k] == repo.list[i]))
+//@   ensures [C20.get-complete] forall(i, 0, len(repo.list), inRange(repo.list[i], minScore, maxScore) ==> exists(k, 0, len(result0), result0[k] == repo.list[i]))
+//@   modifies nothing
+//@   loop 1
+//@     modifies elems(result)
+//@     invariant (-1 <= rangeindex && rangeindex < len(repo.list)) || (len(repo.list) == 0 && rangeindex == -1)
+//@     invariant sameregion(result) && arr(result) != arr(repo.list) && repo.list == atentry(repo.list)
+//@     invariant forall(k, 0, len(result), result[k] != nil && inRange(result[k], minScore, maxScore) && exists(i, 0, rangeindex+1, result[k] == repo.list[i]))
+//@     invariant forall(i, 0, rangeindex+1, inRange(repo.list[i], minScore, maxScore) ==> exists(k, 0, len(result), result[k] == repo.list[i]))
+
+//@ func (*StoragePeerRepository).UpdateScore
+//@   requires peersInv(repo)
+//@   ensures [C20.score-sum] old(has(repo.lookup, address)) ==> result && repo.lookup[address].Score == wrapi32(old(repo.lookup[address].Score) + delta)
+//@   ensures [C20.score-others] forall(i, 0, len(repo.list), repo.list[i] != old(repo.lookup[address]) ==> repo.list[i].Score == old(repo.list[i].Score) && repo.list[i].LastTime == old(repo.list[i].LastTime))
+//@   ensures [C20.score-unknown] !old(has(repo.lookup, address)) ==> !result && nochange()
+//@   ensures [C20.invariant] peersInv(repo) && repo.list == old(repo.list) && mapsame(repo.lookup)
+//@   modifies allof(Peer.Score), allof(Peer.LastTime)
+
+//@ func (*StoragePeerRepository).UpdateTime
+//@   requires peersInv(repo)
+//@   ensures [C20.time-keeps-score] forall(i, 0, len(repo.list), repo.list[i].Score == old(repo.list[i].Score))
+//@   ensures [C20.score-unknown] !old(has(repo.lookup, address)) ==> !result && nochange()
+//@   ensures [C20.invariant] peersInv(repo) && repo.list == old(repo.list) && mapsame(repo.lookup)
+//@   modifies allof(Peer.LastTime)
+
+//@ func (*StoragePeerRepository).Clear
+//@   requires repo != nil
+//@   ensures [C20.clear] len(repo.list) == 0 && repo.lookup != nil && len(repo.lookup) == 0 && peersInv(repo)
+//@   modifies repo.list, repo.lookup, repo.lastSaved
+
+//@ func readPeer
+//@   safety [C20,C15]
+//@   modifies reads(r)
+
+//@ func (*StoragePeerRepository).Load
+//@   requires repo != nil
+//@   ensures [C20.load-invariant] peersInv(repo)
+//@   safety [C20,C15]
+//@   modifies all
+//@   loop 1
+//@     modifies reads(buffer), repo.list, elems(repo.list), mapof(repo.lookup)
+//@     invariant peersInv(repo) && fresh(repo.lookup) && sameregion(repo.list)
